@@ -3,7 +3,10 @@ PROPS["C02"] = dict(
     technique="invariant at a hook inside PDU::serialize (inner-region snapshot compare, underflow event) + size arithmetic + exception typing under ASan/UBSan",
     level_text="Every accepted parse of every PDU entry point, API-built packets with edit histories between serializations, and an enumeration of option codes x lengths "
                "for each option-bearing class are serialized with a monitor hooked between the inner layers' serialization and each layer's own write_serialization: the bytes "
-               "already produced by upper layers must be unchanged afterwards, the buffer is never smaller than header+trailer, serialize() returns exactly size() bytes and throws nothing.",
+               "already produced by upper layers must be unchanged afterwards, the buffer is never smaller than header+trailer, serialize() returns exactly size() bytes and throws nothing. "
+               "Phase 'elements' does the same for variable-length header elements that are not options (MLDv2 records with ragged auxiliary data, MLD queries switching between v1 and v2 with a source list, "
+               "RFC 4884 extension objects, RTP CSRC/extension/padding, AH ICV, IPv6 extension headers); phase 'limits' fills each container to its limit and attempts further additions "
+               "(accepted or refused), after which sizes and regions must still agree; a libtins exception from serialize() is accepted only for a packet the wire format cannot express (own arithmetic).",
     level_note="Trusted: the 40-line hook receiver; header_size()/trailer_size() as the definition of a layer's own regions (as in the property). IP as root with source 0.0.0.0 is skipped "
                "(serialize consults the OS routing table). PPI/PKTAP roots must refuse with pdu_not_serializable.",
     phases=[dict(name="parsed", harness="c02.cpp", flavor="asan", mode="parsed", cases=dict(quick=14000, thorough=600000)),
